@@ -47,6 +47,8 @@ pub enum FOp {
     Range(FI, FI),
     MakeContiguous,
     Views,
+    /// range / range_mut / drain with a (start bound, end bound) pair from the bound table, usize::MAX included
+    Bounds(u8, u8, u8),
 }
 
 #[derive(Debug, Clone, PartialEq, Eq, Hash, Serialize, Deserialize)]
@@ -233,6 +235,49 @@ where
                     return Err(format!("{what}: range_mut({p}..{q}).len() = {}", rm.len()));
                 }
             }
+            FOp::Bounds(sk, ek, which) => {
+                use std::ops::Bound;
+                let bound = |k: u8| -> Bound<usize> {
+                    match k % 10 {
+                        0 => Bound::Unbounded,
+                        1 => Bound::Included(0),
+                        2 => Bound::Excluded(0),
+                        3 => Bound::Included(len.wrapping_sub(1)),
+                        4 => Bound::Excluded(len),
+                        5 => Bound::Included(len),
+                        6 => Bound::Included(usize::MAX),
+                        7 => Bound::Excluded(usize::MAX),
+                        8 => Bound::Included(usize::MAX - 1),
+                        _ => Bound::Excluded(len.wrapping_sub(1)),
+                    }
+                };
+                let (sb, eb) = (bound(sk), bound(ek));
+                let must = crate::model::range_must_panic(sb, eb, len);
+                let (lo, hi) = crate::model::range_to_pair(sb, eb, len);
+                let r = std::panic::catch_unwind(std::panic::AssertUnwindSafe(|| match which % 3 {
+                    0 => b.range((sb, eb)).len(),
+                    1 => b.range_mut((sb, eb)).len(),
+                    _ => {
+                        let d = b.drain((sb, eb));
+                        let l = d.len();
+                        drop(d);
+                        l
+                    }
+                }));
+                match r {
+                    Err(_) if must => {}
+                    Err(_) => return Err(format!("{what}: panicked although the range {:?} is valid for length {len}", (sb, eb))),
+                    Ok(_) if must => return Err(format!("{what}: did not panic although the range {:?} is not valid for length {len}", (sb, eb))),
+                    Ok(l) => {
+                        if l as u128 != hi - lo {
+                            return Err(format!("{what}: the iterator over {:?} has {l} elements, expected {}", (sb, eb), hi - lo));
+                        }
+                        if which % 3 == 2 {
+                            len -= l;
+                        }
+                    }
+                }
+            }
             FOp::MakeContiguous => {
                 let s = b.make_contiguous();
                 if s.len() != len {
@@ -275,6 +320,13 @@ pub fn all_ops() -> Vec<FOp> {
     for i in is {
         v.extend([FOp::Get(i), FOp::Remove(i), FOp::SwapRemoveBack(i), FOp::SwapRemoveFront(i), FOp::TruncateBack(i), FOp::TruncateFront(i)]);
     }
+    for sk in 0..10u8 {
+        for ek in 0..10u8 {
+            for which in 0..3u8 {
+                v.push(FOp::Bounds(sk, ek, which));
+            }
+        }
+    }
     for i in [FI::At(0), FI::At(1), FI::FromLen(1), FI::FromLen(0)] {
         for j in [FI::At(0), FI::At(2), FI::FromLen(1), FI::FromLen(0)] {
             v.extend([FOp::Swap(i, j), FOp::Drain(i, j, 0), FOp::Drain(i, j, 3), FOp::Range(i, j)]);
@@ -293,6 +345,9 @@ pub fn enum_cases(thorough: bool) -> Vec<FCase> {
                     out.push(FCase { cap_index, missing, rotate, ops: vec![*a, FOp::PushBack, FOp::PopFront, FOp::PushFront] });
                     if thorough || (cap_index < 2 && rotate.abs() <= 1) {
                         for z in &ops {
+                            if matches!(z, FOp::Bounds(..)) {
+                                continue;
+                            }
                             out.push(FCase { cap_index, missing, rotate, ops: vec![*a, *z, FOp::TryPushBack] });
                         }
                     }
